@@ -48,17 +48,34 @@ def r17_1(ctx):
     tr = tries[0]
     # statements between the first reversal and the try: plain assignments of fresh containers only
     before = f.body()[: f.body().index(tr)]
-    seen_rev = False
-    for s in before:
-        has_rev = any(isinstance(n, ast.Call) and isinstance(n.func, ast.Attribute) and n.func.attr == "reverse_dependencies" for n in ast.walk(s))
-        if has_rev:
-            seen_rev = True
-            continue
-        if seen_rev:
-            calls = [n for n in ast.walk(s) if isinstance(n, ast.Call) and not (isinstance(n.func, ast.Name) and n.func.id in ("set", "list", "dict"))]
-            ctx.instance(construct(f, "pre-try-stmt"))
-            if calls or not isinstance(s, (ast.Assign, ast.AnnAssign)):
-                ctx.violation(construct(f, "unprotected-statement"), f.loc(s), f"`{ast.unparse(s)[:60]}` runs after the dependencies were reversed but outside the try/finally: if it raises the model stays reversed")
+
+    def is_rev(n):
+        return isinstance(n, ast.Call) and isinstance(n.func, ast.Attribute) and n.func.attr == "reverse_dependencies"
+
+    def scan(func, stmts, seen_rev, depth=0):
+        """Walk the statements in order (a private helper of the project that performs the reversal is walked in place)."""
+        for s in stmts:
+            if any(is_rev(n) for n in ast.walk(s)):
+                seen_rev = True
+                continue
+            helper = None
+            if isinstance(s, ast.Expr) and isinstance(s.value, ast.Call) and depth < 3:
+                callees, resolved = ctx.types.ftypes(func).resolve_call(s.value)
+                if resolved and len(callees) == 1 and callees[0].cls == PROJECT and is_private_helper(callees[0]) \
+                        and any(g.name == "reverse_dependencies" for g in ctx.eff.reachable([callees[0]], precise=True)):
+                    helper = callees[0]
+            if helper is not None:
+                seen_rev = scan(helper, helper.body(), seen_rev, depth + 1)
+                continue
+            if seen_rev:
+                calls = [n for n in ast.walk(s) if isinstance(n, ast.Call) and not (isinstance(n.func, ast.Name) and n.func.id in ("set", "list", "dict"))]
+                ctx.instance(construct(f, "pre-try-stmt"))
+                if isinstance(s, ast.Expr) and isinstance(s.value, ast.Constant):
+                    continue   # a docstring
+                if calls or not isinstance(s, (ast.Assign, ast.AnnAssign)):
+                    ctx.violation(construct(f, "unprotected-statement"), func.loc(s), f"`{ast.unparse(s)[:60]}` runs after the dependencies were reversed but outside the try/finally: if it raises the model stays reversed")
+        return seen_rev
+    seen_rev = scan(f, before, False)
     ctx.require(seen_rev, "no reverse_dependencies call before the try block")
     nraise = 0
     for due in (True, False):
